@@ -243,6 +243,14 @@ impl S3Storage {
                         values_cursor.read(&mut value_buffer).await.unwrap();
                         let value = str::from_utf8(&value_buffer).unwrap();
                         log::debug!("Value: {} after readig", value);
+                        // The state follows the value: a removed key has to come back removed
+                        let mut state_buffer = [0; VERSION_SIZE];
+                        values_cursor.read(&mut state_buffer).await.unwrap();
+                        let state = if i32::from_le_bytes(state_buffer) == 1 {
+                            ValueStatus::Deleted
+                        } else {
+                            ValueStatus::Ok
+                        };
 
                         let after_cursor_position = values_cursor.position();
                         log::debug!("Will add the value : {} to the hash, length: {}, cursor position, {}, before: {}, after: {}", value, value_length, value_cursor_position, before_cursor_position, after_cursor_position);
@@ -250,7 +258,7 @@ impl S3Storage {
                         let value_object = Value {
                             version,
                             value: value.to_string(),
-                            state: ValueStatus::Ok,
+                            state,
                             value_disk_addr: value_addr,
                             key_disk_addr: keys_cursor.position(),// todo Is this needed?
                             opp_id: Databases::next_op_log_id(),
